@@ -750,7 +750,7 @@ fn adjacent_limits(seed: u64, count: usize, small_primes: &[u32]) -> Vec<usize> 
 const EVERY_Q: usize = 3_000;
 const EVERY_T: usize = 30_000;
 const ADJ_PRIME_BOUND: usize = 1_000;
-const CASE_MAX: usize = 40_000_000;
+const CASE_MAX: usize = 80_000_000;
 
 fn main() {
     let eng = Engine::start("sievemon");
@@ -840,7 +840,7 @@ fn main() {
         };
         // (2^24 + 434 lies just beyond 24 bits: a table that packs the least prime factor into a narrower field than the
         // limit needs shows there; the first primes above 2^24 are 16777259 and 16777289)
-        let larges: Vec<usize> = if thorough { vec![1_000_000, 10_000_000, (1 << 24) + 434, (1 << 25) + 77] } else { vec![1_000_000, (1 << 24) + 434] };
+        let larges: Vec<usize> = if thorough { vec![1_000_000, 10_000_000, (1 << 24) + 434, (1 << 25) + 77, (1 << 26) + 31] } else { vec![1_000_000, (1 << 24) + 434, (1 << 25) + 77] };
         // the checked build is several times slower: it keeps the limits up to 10^6
         let larges: Vec<usize> = if cfg!(debug_assertions) { larges.into_iter().filter(|&l| l <= 1_000_000).collect() } else { larges };
         let mut tmax = 0;
